@@ -118,6 +118,10 @@ class Sim:
         self.decide_gate = None  # optional callback(conn, ev) -> decision string (scheduler hook)
         self.inbox = []          # gate messages received but not yet handled
         self.tainted = False     # a stimulus was applied since the last poll was issued
+        self.scheduler = None    # object with pick(sim, held) -> (conn, decision); holds every gated m-call
+        self.held = []           # conns whose pending call waits for the scheduler
+        self.inflight = None     # conn whose released call has not reported its exit yet
+        self.procs = {}          # pid -> dict(role=..., kind='inj', ...) for asynchronously started injectors
         self._setup()
 
     # ------------------------------------------------------------------ setup
@@ -217,6 +221,15 @@ class Sim:
                 self.emit("exit", who="send", status=st)
             elif pid == self.cleaner:
                 self.emit("exit", who="clean", status=st)
+            elif pid in self.procs:
+                pr = self.procs[pid]
+                pr["alive"] = False
+                num = pr.get("num")
+                ok = os.WIFEXITED(st) and os.WEXITSTATUS(st) == 0
+                if ok and num is not None:
+                    self.gen[num] = self.gen.get(num, 0) + 1
+                self.emit("inject", status=st, num=num if ok else None, gen=self.gen.get(num, 0) if (ok and num is not None) else 0,
+                          msg=pr["msg"], envelope=pr["envelope"], role=pr["role"], pid=pid)
             else:
                 self.emit("exit", who="child", pid=pid, status=st)
             if block:
@@ -269,7 +282,7 @@ class Sim:
             r, _, _ = select.select(fds, [], [], timeout)
         except (InterruptedError, ValueError):
             r = []
-        out = []
+        batch = []
         for s in r:
             if s is self.lsock:
                 self._accept()
@@ -285,7 +298,11 @@ class Sim:
                     self.daemon_conn = None
                 continue
             for m in msgs:
-                self.inbox.append((c, m))
+                batch.append((c, m))
+        # messages of different processes arrive on different sockets: the shim's global sequence
+        # number restores their causal order
+        batch.sort(key=lambda cm: cm[1].get("q", 0))
+        self.inbox.extend(batch)
         return self.inbox
 
     def _handle(self, c, m):
@@ -318,21 +335,47 @@ class Sim:
             ev = self.emit("sys", ph="enter", **self._sysfields(m, c))
             for o in self.oracles:
                 o.on_gate(ev, self)
+            if self.scheduler is not None and m.get("c") != "openr":
+                self.held.append(c)
+                return None               # held: the scheduler will release it
             if self.decide_gate:
                 dec = self.decide_gate(c, m)
                 if dec is None:
-                    return None           # held: the scheduler will release it
+                    return None
             else:
                 dec = "g"
             self.release(c, dec)
             return None
         if ph == "exit":
+            if self.inflight is c:
+                self.inflight = None
             self.steps += 1
+            if m.get("p") in self.procs and m.get("c") == "link" and m.get("ret") == 0 and (m.get("path2") or "").startswith("queue/mess/"):
+                try:
+                    self.procs[m["p"]]["num"] = int(m["path2"].split("/")[-1])
+                except ValueError:
+                    pass
             ev = self.emit("sys", ph="exit", **self._sysfields(m, c))
             for o in self.oracles:
                 o.on_step(ev, self)
             return None
         return None
+
+    def sched_step(self):
+        """let the scheduler release one held call (if none is in flight); returns True if it did"""
+        self.held = [c for c in self.held if c.pending is not None and c.sock.fileno() in self.conns]
+        if self.inflight is not None and self.inflight.sock.fileno() not in self.conns:
+            self.inflight = None
+        if self.scheduler is None or not self.held or self.inflight is not None:
+            return False
+        c, dec = self.scheduler.pick(self, self.held)
+        if c is None:
+            return False
+        self.held.remove(c)
+        if dec == "g":
+            self.inflight = c
+        self.release(c, dec)
+        return True
 
     def release(self, c, dec="g"):
         m = c.pending
@@ -399,13 +442,24 @@ class Sim:
         """pump until the daemon's select 'enter' or 'exit' message arrives"""
         t_end = time.time() + wall
         while True:
-            self._pump(0.05)
+            self._pump(0.002 if self.scheduler is not None else 0.05)
             while self.inbox:
                 c, m = self.inbox.pop(0)
                 r = self._handle(c, m)
                 if r is not None and r.get("ph") == want:
                     return r
             self._daemon_gone()
+            if self.scheduler is not None and not self.inbox:
+                if self.sched_step():
+                    continue
+                if self.inflight is not None:
+                    # the released call has not returned: the process is blocked in it (flock, full pipe) or was killed
+                    self.inflight_wait = getattr(self, "inflight_wait", 0) + 1
+                    if self.inflight_wait > 40:
+                        self.inflight = None
+                        self.inflight_wait = 0
+                else:
+                    self.inflight_wait = 0
             if time.time() > t_end:
                 raise SimTimeout("daemon did not reach select (%s) within %.0fs; log tail: %r" % (want, wall, self.dlog[-300:]))
 
@@ -473,6 +527,37 @@ class Sim:
         self.emit("inject", status=st, num=num, gen=self.gen.get(num, 0) if num is not None else 0, msg=msg, envelope=envelope, role=role)
         return st, num
 
+    def start_injector(self, msg, envelope, role, uid=None):
+        """(scenario) start a qmail-queue that runs concurrently under the scheduler; input comes from files"""
+        d = os.path.join(self.home, "injin")
+        os.makedirs(d, exist_ok=True)
+        k = len(self.procs)
+        mf, ef = os.path.join(d, "m%d" % k), os.path.join(d, "e%d" % k)
+        with open(mf, "wb") as f:
+            f.write(msg)
+        with open(ef, "wb") as f:
+            f.write(envelope)
+        e = self.env(role, gated=True)
+        e["NQV_GATEPROG"] = self.gate_progs
+        pid = os.fork()
+        if pid == 0:
+            try:
+                a = os.open(mf, os.O_RDONLY)
+                b_ = os.open(ef, os.O_RDONLY)
+                os.dup2(a, 0)
+                os.dup2(b_, 1)
+                os.closerange(3, 1024)
+                os.execve(self.home + "/bin/qmail-queue", ["qmail-queue"], e)
+            finally:
+                os._exit(127)
+        self.kids.add(pid)
+        self.procs[pid] = {"role": role, "msg": msg, "envelope": envelope, "alive": True, "num": None}
+        self.emit("inj-start", pid=pid, role=role)
+        return pid
+
+    def live_injectors(self):
+        return [p for p, d in self.procs.items() if d["alive"]]
+
     def signal(self, name):
         sig = getattr(signal, "SIG" + name)
         self.emit("signal", sig=name)
@@ -502,6 +587,12 @@ class Sim:
                 del self.alarms[pid]
                 try:
                     os.kill(pid, signal.SIGALRM)
+                    self.emit("virtual-alarm", pid=pid)
+                    for _ in range(400):
+                        self._reap()
+                        if pid not in self.kids:
+                            break
+                        time.sleep(0.005)
                 except ProcessLookupError:
                     pass
 
